@@ -6,6 +6,9 @@ props = [json.loads(l) for l in open(os.path.join(ROOT, 'properties.jsonl'))]
 E1 = "E1-design-lab"; E2 = "E2-library-monitors"; E3 = "E3-real-cli"
 # id -> (engine, technique, level text, level note)
 CHECKS = {
+ "C09": (E3, "runtime monitoring of generator runs: sha256/size/mtime manifests of the output tree after every step of real tool invocations (K fresh generator processes with varied GOMAXPROCS, two generations in one process, and gen/example/edit histories through the REAL goa CLI built from /repo), compared file by file",
+         "Specs rich in multi-key Meta are generated K times in fresh processes and twice in one process; gen,gen / gen,example,edit,example / example,gen / stray-file histories are run through the real cmd/goa binary over one directory; every difference in file list, bytes or mtime of a pre-existing example file is a violation keyed by file role.",
+         "Identical command lines and output paths across runs (the header comment embeds them); designs goa cannot generate (C01) are skipped; two same-process regeneration differences are listed known findings."),
  "C11": (E2, "runtime monitoring: instrumented roots/expressions record every DSL/Prepare/Validate/Finalize callback of the real eval.RunDSL; phase-barrier automaton + reference topological order + error accounting over the recorded log",
          "Every digraph on <=4 labelled roots (cyclic ones included) x every registration order is run through the real eval engine (exhaustive for that sub-space), plus random 5-6 root cases with dynamic registration and error scripts; the callback log is judged by an independent automaton.",
          "Trusts the instrumented test roots; dependency targets never registered and ReportError from Prepare/Finalize are outside the envelope."),
